@@ -285,4 +285,4 @@ MULT = {
 SPECS["Multiplicity"] = MULT
 
 # instance-independent models (over lib/PyVal): (name, translator module, source file)
-PLAIN = [("Utils", "utils2coq", "utils.py")]
+PLAIN = [("Utils", "utils2coq", "utils.py"), ("ExperimentPairs", "exp2coq", "experiment.py")]
